@@ -1,5 +1,5 @@
-Require Import Verif.Model.C03.
+Require Import Verif.Model.C03_run.
 Require Extraction.
 Require Import ExtrOcamlBasic.
-Definition run := run_C03i.
+Definition run := run_C03g.
 Extraction "C03_model.ml" run.
